@@ -9,6 +9,7 @@ VERIF = os.path.dirname(os.path.dirname(os.path.abspath(__file__)))
 REPO = os.environ.get('NEATVI_REPO', '/repo')
 COQ = os.path.join(VERIF, 'coq')
 BUILD = os.path.join(VERIF, 'build')
+EVID = os.environ.get('VERIF_EVIDENCE_DIR') or os.path.join(VERIF, 'evidence')   # seed tests redirect it
 GUARD = 'NEATVI_VERIF'
 REPO_OBJS = ['vi', 'ex', 'lbuf', 'mot', 'sbuf', 'ren', 'dir', 'syn', 'reg', 'led', 'uc',
              'term', 'rset', 'rstr', 'regex', 'cmd', 'tag', 'conf']
@@ -494,7 +495,7 @@ class Result:
 
 
 def write_replay(pid, n, obj):
-    d = os.path.join(VERIF, 'evidence', 'replay')
+    d = os.path.join(EVID, 'replay')
     os.makedirs(d, exist_ok=True)
     p = os.path.join(d, '%s-%d.json' % (pid, n))
     with open(p, 'w') as f:
@@ -554,8 +555,8 @@ def finish(res, checker_cmd, trusted_base):
     ev = {'property_id': pid, 'tier': res.tier, 'seed': res.seed, 'level': res.level,
           'coverage': cov, 'assumptions': res.assumptions, 'wall_s': round(time.time() - res.t0, 2),
           'violations': len(res.violations) + (1 if (rc and not res.violations) else 0)}
-    os.makedirs(os.path.join(VERIF, 'evidence'), exist_ok=True)
-    with open(os.path.join(VERIF, 'evidence', pid + '.json'), 'w') as f:
+    os.makedirs(EVID, exist_ok=True)
+    with open(os.path.join(EVID, pid + '.json'), 'w') as f:
         json.dump(ev, f, indent=1, default=lambda o: o.hex() if isinstance(o, (bytes, bytearray)) else str(o))
     for l in lines:
         print(l)
